@@ -273,6 +273,10 @@ func (r *admRun) judge(cr *admCallRun, out *admOutcome, assignment [][]int32, co
 		r.incon = fmt.Sprintf("call %d (%s) still running after the hard bound while things moved", cr.idx, op)
 		return finish("inconclusive")
 	}
+	if cr.readdressed > 0 && out.err != nil && n == 0 {
+		add("wrong-broker", op+":coordinator-readdressed", fmt.Sprintf("broker %d, coordinator of the call's group, had moved to a new address (announced by FindCoordinator, healthy there); the call returned an error and no request of it reached any broker", cr.readdressed))
+		return finish("violated")
+	}
 	if out.err != nil {
 		if t := out.err.Error(); strings.Contains(t, "i/o timeout") || strings.Contains(t, "connection refused") {
 			r.incon = fmt.Sprintf("call %d (%s): transport error without injected silence: %s", cr.idx, op, t)
